@@ -23,12 +23,9 @@ UNI = [1001, 1002, 1003, 1004, 1005]      # defined-nowhere-in-particular signal
 UNDEF = 9999                              # probe that only a subscribe-to-all client may receive
 PROBES = UNI + [UNDEF]
 
-THEOREMS = ["C02_agree", "C02_agree_nonvacuous", "C02_client_wf",
-            "C02_frame_order_irrelevant", "C02_refused", "C02_refused_manager", "C02_refused_nonvacuous",
-            "C02_ctx_restore_refuted_skip", "C02_ctx_restore_refuted_paused", "C02_pause_ctx_restore_refuted_skip",
-            "C02_ctx_restore_partial", "C02_pause_ctx_restore_partial", "C02_ctx_restore_exact",
-            "C02_ctx_side_condition_syntactic", "C02_ctx_refused", "C02_ctx_loop_total",
-            "C02_ctx_partial_nonvacuous"]
+THEOREMS = ["C02_agree", "C02_agree_nonvacuous", "C02_client_wf", "C02_frame_order_irrelevant", "C02_refused",
+            "C02_refused_manager", "C02_refused_nonvacuous", "C02_ctx_restore", "C02_pause_ctx_restore",
+            "C02_ctx_refused", "C02_ctx_loop_is_filter", "C02_ctx_nonvacuous"]
 
 def zl(ns) -> str:
     ns = list(ns)
@@ -207,8 +204,9 @@ def oracle(chk: Check, case: dict, res: dict):
         chk.spec_failure("ctx:body-not-paused", f"ctx {cx}: inside the body {sorted(set(l) & ins)} still delivered", rep)
     a = r["after"]
     if (set(a["sub"]), set(a["paused"]), set(a["deliv"])) != (sub, paused, set(prev["deliv"])):
-        # evaluate the decidable exclusions of C02_ctx_restore_partial on the failing input
-        # ... and attribute the failure to a recorded class only if that class's effect is what is observed
+        # exit did NOT restore the entry state: a violation.  Name the class (the two classes fixed by 651ddd8 /
+        # aa63f93 - `fixed:` lines suppress nothing) by evaluating the old loop on the input, so that a regression
+        # is recognisable; anything else is ctx:unexpected
         keys = []
         asub, apaused = set(a["sub"]), set(a["paused"])
         if k == "sub":
@@ -359,7 +357,8 @@ def run(chk: Check):
         "sentinels (the manager code touches only src_module's entries - read, not proved)",
         "control frames of one call are processed by the manager in the order sent (one TCP connection); their "
         "order is irrelevant anyway (C02_frame_order_irrelevant)",
-        "CPython list-iterator semantics under mutation modelled in Lib/PyList.v (validated by the correspondence)",
+        "context managers hand-modelled (Model/ClientSubs.v) with CPython list.remove / iterate-a-copy semantics "
+        "(Lib/PyList.v): tied by the correspondence, not translated",
         "a probe is 'delivered' if its header reaches the client's socket after a manager round-trip barrier; "
         "manager write-readiness (wlist) is not an obstacle on an idle localhost connection",
         "context-manager bodies are empty; lists of individual types (ALL_MESSAGE_TYPES in the list is outside "
